@@ -183,6 +183,16 @@ def h_tz(env):
             env.eq('gcp2', g, want)
 
 
+def h_glue(env):
+    """trailing_zeros / to_bits executed by m=3 parties (real masks from PRSS or dealers, real openings and resharing);
+    catches what m=1 cannot see: a share treated as a bit, a missing resharing, a wrong opening threshold."""
+    from vf import l1
+    P = env.params
+    run = l1.run_glue(env, P['m'], P['t'], P['prss'], P['prog'], P['l'])
+    l1.assert_outputs(env, run, P['l'])
+    l1.assert_sharing(env, run, P['t'])
+
+
 def h_twin(env):
     """twin: claims to_bits returns the bits of a+1: must come back violated."""
     k = _k(env, 3)
@@ -215,5 +225,8 @@ def instances(tier):
     for l in ([4] if q else [4, 5]):
         out.append(Inst(f'trailing_zeros[l={l}]', h_tz, dict(l=l, what='tz'), timeout=1800, max_paths=20000))
     out.append(Inst(f'gcp2[l={2 if q else 3}]', h_tz, dict(l=2 if q else 3, what='gcp2'), timeout=3000, max_paths=40000))
+    for prss in (True, False):
+        out.append(Inst(f'glue:tz[m=3,t=1,l=3,prss={int(prss)}]', h_glue, dict(m=3, t=1, prss=prss, prog='tz', l=3), timeout=1800, max_paths=5000))
+        out.append(Inst(f'glue:to_bits[m=3,t=1,l=3,prss={int(prss)}]', h_glue, dict(m=3, t=1, prss=prss, prog='to_bits', l=3), timeout=1800, max_paths=5000))
     out.append(Inst('twin_bits_of_a_plus_1', h_twin, {}, twin=True, expect='violated'))
     return out
